@@ -64,6 +64,7 @@ type arpResp struct {
 	ip    uint32
 	mac   []byte
 	delay time.Duration
+	pad   bool // answer padded to the 46-byte Ethernet minimum, as on a real wire
 }
 
 type outFrame struct {
@@ -73,6 +74,7 @@ type outFrame struct {
 }
 
 type roundObs struct {
+	nosnap bool
 	t, tq uint64
 	pkt   []byte
 	arp   []arpResp
@@ -117,6 +119,9 @@ func startServer(t *testing.T, cfg srvCfg) (*srvRun, error) {
 		target := binary.BigEndian.Uint32(f.Payload[24:28])
 		if r, ok := s.arp[target]; ok {
 			reply := make([]byte, 28)
+			if r.pad {
+				reply = make([]byte, 46)
+			}
 			copy(reply, []byte{0, 1, 8, 0, 6, 4, 0, 2})
 			copy(reply[8:14], r.mac)
 			binary.BigEndian.PutUint32(reply[14:], target)
@@ -163,6 +168,21 @@ func (s *srvRun) round(pkt []byte, arp []arpResp) roundObs {
 	before := len(s.seg.Frames())
 	r := roundObs{t: s.rel(), pkt: pkt, arp: arp}
 	s.seg.Inject(rsocks.KindIP, pkt)
+	waitQuiet(s)
+	r.tq = s.rel()
+	for _, f := range s.seg.Frames()[before:] {
+		if f.Kind == rsocks.KindIP {
+			r.outs = append(r.outs, outFrame{t: uint64(f.T.Sub(s.start)), eth: f.EthDst, pkt: f.Payload})
+		}
+	}
+	r.snap = s.snapshot()
+	s.rounds = append(s.rounds, r)
+	// let stale ARP answers of this round drain before the next one
+	time.Sleep(time.Second)
+	return r
+}
+
+func waitQuiet(s *srvRun) {
 	deadline := time.Now().Add(s.maxBusy)
 	for {
 		synctest.Wait()
@@ -171,12 +191,10 @@ func (s *srvRun) round(pkt []byte, arp []arpResp) roundObs {
 		}
 		time.Sleep(time.Millisecond)
 	}
-	r.tq = s.rel()
-	for _, f := range s.seg.Frames()[before:] {
-		if f.Kind == rsocks.KindIP {
-			r.outs = append(r.outs, outFrame{t: uint64(f.T.Sub(s.start)), eth: f.EthDst, pkt: f.Payload})
-		}
-	}
+}
+
+func (s *srvRun) snapshot() []snapE {
+	var out []snapE
 	now := time.Now()
 	for _, e := range s.srv.VerifIPDB().VerifSnapshot() {
 		if e.Permanent || !now.After(e.LeasedUntil) {
@@ -184,13 +202,10 @@ func (s *srvRun) round(pkt []byte, arp []arpResp) roundObs {
 			if !e.Permanent {
 				se.until = int64(e.LeasedUntil.Sub(s.start))
 			}
-			r.snap = append(r.snap, se)
+			out = append(out, se)
 		}
 	}
-	s.rounds = append(s.rounds, r)
-	// let stale ARP answers of this round drain before the next one
-	time.Sleep(time.Second)
-	return r
+	return out
 }
 
 func (s *srvRun) advance(d time.Duration) { time.Sleep(d) }
@@ -216,7 +231,7 @@ func (s *srvRun) encode(macs [][]byte) []interface{} {
 	a = append(a, encOpts(dflt)...)
 	a = append(a, L{uint64(len(s.rounds))})
 	for _, r := range s.rounds {
-		a = append(a, L{r.t, r.tq, 1, uint64(len(r.arp)), uint64(len(r.outs)), uint64(len(r.snap))}, B(r.pkt))
+		a = append(a, L{r.t, r.tq, b2n(!r.nosnap), uint64(len(r.arp)), uint64(len(r.outs)), uint64(len(r.snap))}, B(r.pkt))
 		for _, x := range r.arp {
 			a = append(a, L{uint64(x.ip), uint64(x.delay)}, B(x.mac))
 		}
@@ -360,7 +375,11 @@ func newSrvGen(r *rand.Rand) *srvGen {
 
 func (g *srvGen) someAddr() uint32 {
 	c := g.cfg
-	switch g.r.Intn(8) {
+	switch g.r.Intn(11) {
+	case 8: // just outside / at the edge of the dynamic range
+		return []uint32{c.rangeB - 1, c.rangeE + 1, c.rangeB, c.rangeE}[g.r.Intn(4)]
+	case 9: // edges of the network, .255 / .0 addresses
+		return []uint32{c.netU, c.netU + 1, c.netU + ^c.maskU, c.netU + ^c.maskU - 1, (c.rangeB | 0xff), (c.rangeE &^ 0xff)}[g.r.Intn(6)]
 	case 0:
 		return c.selfIP
 	case 1:
@@ -390,11 +409,11 @@ func (g *srvGen) next() ([]byte, []arpResp, *simClient, byte) {
 	for _, a := range g.pool {
 		switch r.Intn(12) {
 		case 0:
-			arp = append(arp, arpResp{a, []byte{0x02, 0xcc, 0, 0, 0, byte(a)}, time.Duration(1+r.Intn(589)) * time.Millisecond})
+			arp = append(arp, arpResp{a, []byte{0x02, 0xcc, 0, 0, 0, byte(a)}, time.Duration(1+r.Intn(589)) * time.Millisecond, r.Intn(2) == 0})
 		case 1:
-			arp = append(arp, arpResp{a, cl.mac, time.Duration(1+r.Intn(589)) * time.Millisecond})
+			arp = append(arp, arpResp{a, cl.mac, time.Duration(1+r.Intn(589)) * time.Millisecond, r.Intn(2) == 0})
 		case 2:
-			arp = append(arp, arpResp{a, []byte{0x02, 0xcc, 0, 0, 0, byte(a)}, time.Duration(610+r.Intn(300)) * time.Millisecond})
+			arp = append(arp, arpResp{a, []byte{0x02, 0xcc, 0, 0, 0, byte(a)}, time.Duration(610+r.Intn(300)) * time.Millisecond, false})
 		}
 	}
 	bc := uint32(0xffffffff)
@@ -471,9 +490,24 @@ func (g *srvGen) next() ([]byte, []arpResp, *simClient, byte) {
 	default: // junk
 		kind = 9
 		b := randBytes(r, 20+r.Intn(300))
-		if r.Intn(2) == 0 {
+		switch r.Intn(4) {
+		case 0:
 			good := udpip(0, bc, 68, 67, 17, 64, cl.msg(1, 0, 0).bytes())
 			b = good[:r.Intn(len(good))]
+		case 1: // DHCP payload truncated anywhere from the end of the fixed part on, lengths of IP and UDP consistent
+			pl := cl.msg(byte(1+2*r.Intn(2)), flags, 0, wopt{50, u32b(g.someAddr())}, wopt{55, []byte{1, 3, 6}}).bytes()
+			cut := 230 + r.Intn(len(pl)-229)
+			b = udpip(0, bc, 68, 67, 17, 64, pl[:cut])
+		case 2: // malformed option area
+			m := cl.msg(1, flags, 0)
+			alpha := []byte{0, 255, 53, 1, 3, 61, 50, 4, 200}
+			for i := 0; i < r.Intn(9); i++ {
+				m.rawOpts = append(m.rawOpts, alpha[r.Intn(len(alpha))])
+			}
+			if m.rawOpts == nil {
+				m.rawOpts = []byte{}
+			}
+			b = udpip(0, bc, 68, 67, 17, 64, m.bytes())
 		}
 		return b, arp, cl, kind
 	}
